@@ -1742,6 +1742,28 @@ def _c18_harnesses(prop, tier):
     return out
 
 
+def _c08_nested_harnesses(prop):
+    """C08 (native only): a spawn macro nested inside a spawned branch: its threads are named after the branch thread"""
+    out = []
+    for outer, inner in [("join_spawn", "join_spawn"), ("try_join_spawn", "join_spawn"), ("join_spawn", "try_join_spawn")]:
+        inner_prog = "%s! { Some(5u8) |> |y: u8| { probe(10, 1, 2); y }, Some(6u8) |> |y: u8| { probe(11, 1, 2); y } }" % inner
+        inner_val = "inner.0.unwrap()" if not inner.startswith("try") else "inner.unwrap().0"
+        prog = "%s! { Some(0u8) |> |x: u8| { probe(0, 0, 2); x }, Some(1u8) |> |x: u8| { probe(1, 0, 2); let inner = %s; x + %s } }" % (outer, inner_prog, inner_val)
+        body = "        let r = %s;\n" % prog
+        body += "        let _ = r;\n"
+        body += "        let me = std::thread::current(); let c = me.name().unwrap_or(\"?\").to_string();\n"
+        body += "        for (b, want) in [(0u8, format!(\"{}_join_0\", c)), (1u8, format!(\"{}_join_1\", c))] { if probe_thread_name(b, 0) != Some(want.clone()) { return Err(format!(\"C08: outer branch {} ran on {:?}, expected {:?}\", b, probe_thread_name(b, 0), want)); } }\n"
+        body += "        for (b, want) in [(10u8, format!(\"{}_join_1_join_0\", c)), (11u8, format!(\"{}_join_1_join_1\", c))] { if probe_thread_name(b, 1) != Some(want.clone()) { return Err(format!(\"C08: nested branch {} ran on {:?}, expected {:?}\", b - 10, probe_thread_name(b, 1), want)); } }\n"
+        body += "        Ok(())\n"
+        b = "    probe_reset();\n    let run = move || -> Result<(), String> {\n%s    };\n" % body
+        b += "    let res = with_watchdog(move || std::thread::Builder::new().name(\"caller\".into()).spawn(run).unwrap().join().unwrap());\n"
+        b += "    assert!(res.is_some(), \"C08: the macro did not return within 25 s\");\n"
+        b += "    if let Some(Err(m)) = res { panic!(\"{}\", m); }\n"
+        hn = "%s_threads_nested_%s_in_%s" % (prop.lower(), inner, outer)
+        out.append(Harness(hn, harness_fn(hn, b), prog, note="nested spawn macros: thread names compose"))
+    return out
+
+
 def _c18_capture_handler_harnesses(prop, tier):
     """C18 (native only): the panic sits in a block capture (evaluated before its step) or in the final handler"""
     out = []
@@ -1826,6 +1848,7 @@ def native_families(pid, tier):
         out += _c18_capture_handler_harnesses(pid, tier)
     if pid == "C08":
         out += _c08_harnesses(pid, tier)
+        out += _c08_nested_harnesses(pid)
     if pid == "C18":
         out += _c18_harnesses(pid, tier)
     if pid == "C09":
